@@ -53,7 +53,22 @@ def o1(W, ob):
     # NetworkInterrupted announces disconnect_timeout - disconnect_notify_start
     for s in event_constructions(W, f, 'Event', 'NetworkInterrupted'):
         v = key(W.ctx(f).expr_operand(s.rv.ops[0]))
-        ob.check('saturating_sub' in v and 'disconnect_timeout' in v and 'disconnect_notify_start' in v,
+        vals = [v]
+        src = trace_back(W, f, s.rv.ops[0], through={'as_millis'})
+        if src and src[0] == 'place' and not src[1].proj:
+            pd = G.phi_defs(src[1].local)
+            if pd:
+                vals = [key(x) for _, x in pd]
+                v = ' | '.join(vals)
+
+        def diff(x):
+            return ('saturating_sub' in x or ' Sub ' in x or 'sub(' in x) and 'disconnect_timeout' in x and 'disconnect_notify_start' in x and \
+                x.index('disconnect_timeout') < x.index('disconnect_notify_start')
+
+        def zero(x):
+            return 'ZERO' in x or x in ('0',) or 'from_millis(0)' in x or 'from_secs(0)' in x or 'default(' in x.lower()
+        # (whether a plain subtraction can panic is C16.O4's business; here: the announced value is the remaining time, floored at zero)
+        ob.check(any(diff(x) for x in vals) and all(diff(x) or zero(x) for x in vals),
                  'poll|interrupted-remaining', 'NetworkInterrupted carries timeout - notify_start',
                  'NetworkInterrupted.disconnect_timeout := %s' % v, where(f, s.line))
 
